@@ -139,11 +139,49 @@ def gen_nuc(rng, exact):
     return f'nuc {mode} {f2h(lam)} {f2h(γ)} {r} {c} {vec2p(flat)}'
 
 
+def gen_gps(rng, exact):
+    """gps: the GENERIC default of the prox_step customisation point (prox_step from prox) for every functor
+    without its own prox_step: L1Norm (scalar / vector weight), L1NormComplex (both), NuclearNorm.
+    γ ≠ 1 and γ_fwd ≠ ±γ on purpose."""
+    kind = rng.choice(['l1s', 'l1s', 'l1v', 'l1v', 'cl1s', 'cl1v', 'nuc'])
+    if exact:
+        γ = 2.0 ** rng.randint(-3, 2)
+        γf = rng.choice([-1, 1]) * 2.0 ** rng.randint(-3, 2)
+        if rng.random() < 0.7:
+            while abs(γf) == γ or γ == 1.0:
+                γ = 2.0 ** rng.randint(-3, 2); γf = rng.choice([-1, 1]) * 2.0 ** rng.randint(-3, 2)
+    else:
+        γ = abs(rnd_val(rng, False)) + 1e-6
+        γf = rnd_val(rng, False) or -1.0
+    if kind == 'nuc':
+        r = rng.choice([1, 2, 2, 3]); c = rng.choice([1, 2, 2, 3])
+        mode = rng.choice([0, 1])
+        lam = rng.choice([0.0, 1.0, abs(rnd_val(rng, exact)) + 2.0 ** -4])
+        a = [rnd_val(rng, exact) for _ in range(r * c)]
+        d = [rnd_val(rng, exact) for _ in range(r * c)]
+        return f'gps nuc {mode} {f2h(lam)} {f2h(γ)} {f2h(γf)} {r} {c} {vec2p(a)} {vec2p(d)}'
+    n = rng.choice([0, 1, 2, 3, 4])
+    if kind in ('cl1s', 'cl1v'):
+        n *= 2
+    x = [rnd_val(rng, exact) for _ in range(n)]
+    d = [rnd_val(rng, exact) for _ in range(n)]
+    m = n // 2 if kind[0] == 'c' else n
+    if kind in ('l1s', 'cl1s'):
+        lam = rng.choice([0.0, abs(rnd_val(rng, exact)), abs(rnd_val(rng, exact))])
+        if kind == 'l1s' and exact and n and rng.random() < 0.5 and γf:
+            d[0] = (rng.choice([1, -1]) * lam * γ - x[0]) / γf      # tie on the threshold
+        return f'gps {kind} {f2h(lam)} {f2h(γ)} {f2h(γf)} {vec2p(x)} {vec2p(d)}'
+    lam = [rng.choice([0.0, abs(rnd_val(rng, exact))]) for _ in range(m)]
+    if rng.random() < 0.15:
+        lam = []
+    return f'gps {kind} {vec2p(lam)} {f2h(γ)} {f2h(γf)} {vec2p(x)} {vec2p(d)}'
+
+
 def gen_case(rng):
     exact = rng.random() < 0.4
     n = rng.choice([0, 1, 1, 2, 3, 4, 6])
     kind = rng.choice(['pgs', 'pgs', 'pgs', 'inact', 'inact', 'pmult', 'proj', 'pstep', 'l1s', 'l1v',
-                       'unc', 'cl1', 'cl1', 'nuc', 'nuc'])
+                       'unc', 'cl1', 'cl1', 'nuc', 'nuc', 'gps', 'gps', 'gps'])
     if kind == 'cl1':
         return gen_cplx(rng, exact)
     if kind == 'nuc':
@@ -185,7 +223,10 @@ def gen_case(rng):
     if kind == 'pstep':
         lb, ub = gen_box(rng, n, exact)
         γf = -γ if rng.random() < 0.7 else γ
-        return f'pstep {f2h(γf)} {vec2p(x)} {vec2p(g)} {vec2p(lb)} {vec2p(ub)}'
+        γ0 = rng.choice([1.0, 0.5, 2.0, 3.0, 0.25])       # documented as unused by the Box overload
+        return f'pstep {f2h(γ0)} {f2h(γf)} {vec2p(x)} {vec2p(g)} {vec2p(lb)} {vec2p(ub)}'
+    if kind == 'gps':
+        return gen_gps(rng, exact)
     if kind == 'l1s':
         lam = rng.choice([0.0, abs(rnd_val(rng, exact))])
         if exact and n and rng.random() < 0.5:
@@ -263,6 +304,80 @@ def softF(v, t):
 
 
 EPS = 2.0 ** -52
+KINDS = {}      # op kinds monitored in this run (required coverage)
+COUNT = {}      # exemptions and observations, by reason (reported in the evidence)
+
+
+def bump(k, n=1):
+    COUNT[k] = COUNT.get(k, 0) + n
+
+
+def phi1(u, v, lam, gam):
+    return lam * abs(u) + (u - v) ** 2 / (2 * gam)
+
+
+def prox1d_argmin(v, lam, gam, lb, ub):
+    """The minimiser of λ|u| + (u − v)²/(2γ) over [lb, ub], found as the best of the finitely many
+    candidates a convex piecewise-quadratic can attain its minimum at (the bounds, the kink 0, the two
+    stationary points v ∓ γλ) — by comparing exact function values, not by the soft-threshold / clamp
+    composition the library uses."""
+    t = gam * lam
+    cands = [Fr(0), v - t, v + t]
+    if lb != -INF:
+        cands.append(Fr(lb))
+    if ub != INF:
+        cands.append(Fr(ub))
+    feas = [u for u in cands if (lb == -INF or u >= Fr(lb)) and (ub == INF or u <= Fr(ub))]
+    return min(feas, key=lambda u: phi1(u, v, lam, gam))
+
+
+def opt_residual(xh, v, lam, gam, lb, ub, snap=0):
+    """Distance of r = (v − x̂)/γ to λ·∂|·|(x̂) + N_[lb,ub](x̂): the optimality condition
+    0 ∈ ∂h(x̂) + (x̂ − v)/γ the property names, evaluated AT THE RETURNED POINT in exact rationals.
+    None if x̂ is not in the box (then it is not even feasible)."""
+    # `snap`: a returned point within this distance of a bound counts as being AT the bound (x̂ = x + p
+    # reproduces a bound only up to the rounding of (bound − x) + x)
+    if lb != -INF and abs(xh - Fr(lb)) <= snap:
+        xh = Fr(lb)
+    elif ub != INF and abs(xh - Fr(ub)) <= snap:
+        xh = Fr(ub)
+    if (lb != -INF and xh < Fr(lb)) or (ub != INF and xh > Fr(ub)):
+        return None
+    r = (v - xh) / gam
+    lo = hi = None                       # the interval [lo, hi] of admissible r (None = unbounded)
+    if xh > 0:
+        lo = hi = lam
+    elif xh < 0:
+        lo = hi = -lam
+    else:
+        lo, hi = -lam, lam
+    at_lb = lb != -INF and xh == Fr(lb)
+    at_ub = ub != INF and xh == Fr(ub)
+    if at_lb:
+        lo = None                        # normal cone (−∞, 0]
+    if at_ub:
+        hi = None                        # normal cone [0, +∞)
+    if lo is not None and r < lo:
+        return lo - r
+    if hi is not None and r > hi:
+        return r - hi
+    return Fr(0)
+
+
+def locally_shift(v, lam, gam, lb, ub):
+    """Is w ↦ prox(w) the identity shift on a neighbourhood of v?  Decided by perturbing v exactly: the
+    prox of a piecewise-quadratic is piecewise affine with breakpoints among {lb, ub, 0} ± γλ, so for a δ
+    below half the distance from v to the nearest other breakpoint the two one-sided tests decide it."""
+    t = gam * lam
+    br = {t, -t}
+    for b in (lb, ub):
+        if b not in (INF, -INF):
+            br |= {Fr(b) + t, Fr(b) - t, Fr(b)}
+    ds = [abs(v - b) for b in br if b != v]
+    delta = (min(ds) / 2) if ds else Fr(1)
+    p0 = prox1d_argmin(v, lam, gam, lb, ub)
+    return (prox1d_argmin(v + delta, lam, gam, lb, ub) - p0 == delta and
+            prox1d_argmin(v - delta, lam, gam, lb, ub) - p0 == -delta)
 
 
 def tol(*mags):
@@ -516,10 +631,18 @@ def monitor_nuc(op, t, o_line):
 def monitor(op, out, st):
     """Recompute in exact rational arithmetic what the property promises; compare with the real
     code's output up to a few ulps of the operands (never a tolerance-sized amount)."""
-    if out in ('exception', 'bad-op') and not op.startswith('nuc '):
+    if out in ('exception', 'bad-op') and not op.startswith(('nuc ', 'gps nuc ')):
         return f'unexpected {out}'
     t = T(op)
     kind = t.tok()
+    kk = kind + (' ' + op.split()[1] if kind == 'gps' else '')
+    KINDS[kk] = KINDS.get(kk, 0) + 1
+    if kind == 'gps':
+        tk = op.split()
+        gi = 4 if tk[1] == 'nuc' else 3
+        γ_, γf_ = h2f(tk[gi]), h2f(tk[gi + 1])
+        if γ_ != 1.0 and abs(γf_) != γ_:
+            KINDS['gps with γ ≠ 1 and |γ_fwd| ≠ γ'] = KINDS.get('gps with γ ≠ 1 and |γ_fwd| ≠ γ', 0) + 1
     if kind in ('cl1s', 'cl1v'):
         return monitor_cplx(kind, t, out)
     if kind == 'nuc':
@@ -537,13 +660,30 @@ def monitor(op, out, st):
                 return 'output size mismatch'
             hexact = Fr(0)
             for i in range(n):
-                s = clampF(softF(v[i], tt[i]), lb[i], ub[i])
-                e = tol(x[i], γ * g[i], tt[i], s, lb[i], ub[i])
-                if not math.isfinite(xh[i]) or abs(Fr(xh[i]) - s) > e:
-                    return (f'prox output x̂[{i}]={xh[i]!r} is not the minimiser '
-                            f'clamp(soft(x-γg, γλ), lb, ub)={float(s)!r} (|Δ|>{e:.3g})')
-                if not (lb[i] - e <= xh[i] <= ub[i] + e):
-                    return f'x̂[{i}]={xh[i]!r} outside [{lb[i]}, {ub[i]}]'
+                if not math.isfinite(xh[i]):
+                    return f'prox output x̂[{i}]={xh[i]!r}'
+                e = tol(x[i], γ * g[i], tt[i], xh[i], lb[i], ub[i])
+                # (a) the unique minimiser, from an independent exact argmin over the candidate points
+                s = prox1d_argmin(v[i], Fr(lam[i]), Fr(γ), lb[i], ub[i])
+                if abs(Fr(xh[i]) - s) > e:
+                    return (f'prox output x̂[{i}]={xh[i]!r} is not the minimiser of λ|u| + (u−v)²/(2γ) over the box: '
+                            f'exact argmin {float(s)!r} (|Δ|>{e:.3g})')
+                # (b) box membership.  x̂ = x + p with p = clamp(…, lb − x, ub − x): the bound is reproduced
+                # only up to the rounding of (bound − x) + x, i.e. one ulp of max(|x|, |bound|) — this is the
+                # exact claim; prox(Box) / sets::project (cwiseMax / cwiseMin on the output itself) are held to
+                # exact membership in `proj`.
+                eb = 2 * EPS * max(abs(x[i]), abs(xh[i]))
+                if not (lb[i] - eb <= xh[i] <= ub[i] + eb):
+                    return f'x̂[{i}]={xh[i]!r} outside [{lb[i]}, {ub[i]}] by more than the rounding of (bound − x) + x'
+                if not (lb[i] <= xh[i] <= ub[i]):
+                    bump('observation: pgs x̂ = x + p leaves the box by rounding of (bound − x) + x (≤ 1 ulp)')
+                # (c) the optimality condition 0 ∈ ∂h(x̂) + (x̂ − v)/γ at the returned point (a point within the
+                # rounding eb of a bound counts as being at that bound)
+                res = opt_residual(Fr(xh[i]), v[i], Fr(lam[i]), Fr(γ), lb[i], ub[i], snap=Fr(eb))
+                if res is None or res * Fr(γ) > 2 * Fr(e):
+                    return (f'optimality condition violated at x̂[{i}]={xh[i]!r}: (v − x̂)/γ = '
+                            f'{float((v[i] - Fr(xh[i])) / Fr(γ))!r} is at distance {float(res) if res is not None else None!r} '
+                            f'from λ∂|x̂| + N_box(x̂) (λ={lam[i]!r}, γ={γ!r}, v={float(v[i])!r}, box=[{lb[i]},{ub[i]}])')
                 if abs(Fr(xh[i]) - (Fr(x[i]) + Fr(p[i]))) > 2 * tol(x[i], p[i]):
                     return f'p[{i}] ≠ x̂ − x: p={p[i]!r}, x̂−x={float(Fr(xh[i]) - Fr(x[i]))!r}'
                 hexact += Fr(lam[i]) * abs(Fr(xh[i]))
@@ -555,31 +695,23 @@ def monitor(op, out, st):
             if J != sorted(set(J)) or any(j < 0 or j >= n for j in J):
                 return f'J not a strictly increasing index list: {J}'
             for i in range(n):
-                # the value whose strict interior membership decides i ∈ J, in exact arithmetic
-                if tt[i] == 0:
-                    w = v[i]; act = True
-                elif v[i] > tt[i]:
-                    w = v[i] - tt[i]; act = True
-                elif v[i] < -tt[i]:
-                    w = v[i] + tt[i]; act = True
-                else:
-                    w = Fr(0); act = False
-                inside = act and (lb[i] == -INF or Fr(lb[i]) < w) and (ub[i] == INF or w < Fr(ub[i]))
-                # margin to any decision threshold; skip components within rounding of a tie
+                # the property: i ∈ J ⇔ the prox is locally the identity shift at the forward point —
+                # decided by exact perturbation of v (not by the case analysis of update_J_general)
+                inside = locally_shift(v[i], Fr(lam[i]), Fr(γ), lb[i], ub[i])
+                # the real code decides on x_fw = fl(x − γ g) and fl(γλ): within rounding of a threshold the two
+                # can legitimately differ unless the inputs are exact
                 e = tol(x[i], γ * g[i], tt[i], lb[i], ub[i]) * 4
-                marg = []
-                if lb[i] != -INF:
-                    marg.append(abs(w - Fr(lb[i])))
-                if ub[i] != INF:
-                    marg.append(abs(w - Fr(ub[i])))
-                if tt[i] != 0:
-                    marg += [abs(v[i] - tt[i]), abs(v[i] + tt[i])]
+                br = [tt[i], -tt[i]] if tt[i] != 0 else []
+                for b in (lb[i], ub[i]):
+                    if b not in (INF, -INF):
+                        br += [Fr(b) + tt[i], Fr(b) - tt[i]]
                 exact_inputs = all(abs(a) < 2 ** 20 and (a * 1024) % 1 == 0
                                    for a in (x[i], g[i], γ, lam[i]))
-                if marg and min(marg) <= e and not exact_inputs:
+                if br and min(abs(v[i] - b) for b in br) <= e and not exact_inputs:
+                    bump('exempt: inact component within rounding of a threshold, inexact inputs')
                     continue
                 if (i in J) != inside:
-                    return (f'index {i} {"in" if i in J else "not in"} J but prox is '
+                    return (f'index {i} {"in" if i in J else "not in"} J but the prox is '
                             f'{"" if inside else "not "}locally the identity shift there '
                             f'(x_fw={float(v[i])!r}, γλ={float(tt[i])!r}, box=[{lb[i]},{ub[i]}])')
         return None
@@ -600,22 +732,42 @@ def monitor(op, out, st):
         v = t.vec(); lb = t.vec(); ub = t.vec()
         o1 = o.vec(); h = o.flt(); o2 = o.vec()
         for i in range(len(v)):
-            exp = float(clampF(Fr(v[i]), lb[i], ub[i]))
-            if o1[i] != exp or o2[i] != exp:
-                return f'projection[{i}] = {o1[i]!r}/{o2[i]!r}, expected {exp!r}'
+            for nm, got in (('sets::project', o1[i]), ('prox(Box)', o2[i])):
+                # cwiseMax / cwiseMin on the output: EXACT membership and the exact nearest point are demanded
+                if not (lb[i] <= got <= ub[i]):
+                    return f'{nm}[{i}] = {got!r} is not in [{lb[i]}, {ub[i]}] (exact membership is demanded)'
+                s = prox1d_argmin(Fr(v[i]), Fr(0), Fr(1), lb[i], ub[i])
+                if Fr(got) != s:
+                    return f'{nm}[{i}] = {got!r}, the nearest point of the box is {float(s)!r}'
+                res = opt_residual(Fr(got), Fr(v[i]), Fr(0), Fr(1), lb[i], ub[i])
+                if res != 0:
+                    return f'{nm}[{i}] = {got!r}: v − x̂ = {v[i] - got!r} is not in the normal cone of the box at x̂'
         if h != 0:
             return f'prox(Box) returned h={h!r} ≠ 0'
         return None
     if kind == 'pstep':
-        γf = t.flt(); x = t.vec(); d = t.vec(); lb = t.vec(); ub = t.vec()
+        γ0 = t.flt(); γf = t.flt(); x = t.vec(); d = t.vec(); lb = t.vec(); ub = t.vec()
         h = o.flt(); out_ = o.vec(); fb = o.vec()
+        if h != 0:
+            return f'prox_step(Box) returned h={h!r} ≠ 0 (the indicator of a point of the box)'
         for i in range(len(x)):
-            s = clampF(Fr(x[i]) + Fr(γf) * Fr(d[i]), lb[i], ub[i])
+            vv = Fr(x[i]) + Fr(γf) * Fr(d[i])
+            if not math.isfinite(out_[i]) or not math.isfinite(fb[i]):
+                return f'prox_step out[{i}]={out_[i]!r}, fb_step[{i}]={fb[i]!r}'
+            s = prox1d_argmin(vv, Fr(0), Fr(1), lb[i], ub[i])
             e = tol(x[i], γf * d[i], lb[i], ub[i], s)
             if abs(Fr(out_[i]) - s) > e:
-                return f'prox_step out[{i}]={out_[i]!r}, exact {float(s)!r}'
+                return f'prox_step out[{i}]={out_[i]!r}, nearest point of the box to in + γ_fwd·d is {float(s)!r} (γ={γ0!r})'
+            eb = 2 * EPS * max(abs(x[i]), abs(out_[i]))
+            if not (lb[i] - eb <= out_[i] <= ub[i] + eb):
+                return f'prox_step out[{i}]={out_[i]!r} outside [{lb[i]}, {ub[i]}]'
+            if not (lb[i] <= out_[i] <= ub[i]):
+                bump('observation: prox_step(Box) out = in + fb_step leaves the box by rounding (≤ 1 ulp)')
+            res = opt_residual(Fr(out_[i]), vv, Fr(0), Fr(1), lb[i], ub[i], snap=Fr(eb))
+            if res is None or res > 2 * Fr(e):
+                return f'prox_step out[{i}]={out_[i]!r}: in + γ_fwd·d − out is not in the normal cone of the box'
             if abs(Fr(out_[i]) - Fr(x[i]) - Fr(fb[i])) > 2 * tol(x[i], fb[i]):
-                return f'fb_step[{i}] ≠ out − in'
+                return f'fb_step[{i}] = {fb[i]!r} ≠ out − in = {float(Fr(out_[i]) - Fr(x[i]))!r}'
         return None
     if kind in ('l1s', 'l1v'):
         if kind == 'l1s':
@@ -625,24 +777,104 @@ def monitor(op, out, st):
             if not lam:
                 lam = [1.0] * len(v)
         h = o.flt(); out_ = o.vec()
-        hexact = Fr(0)
-        for i in range(len(v)):
-            s = softF(Fr(v[i]), Fr(lam[i]) * Fr(γ))
-            e = tol(v[i], lam[i] * γ)
-            if abs(Fr(out_[i]) - s) > e:
-                return f'soft-threshold[{i}]={out_[i]!r}, exact {float(s)!r}'
-            hexact += Fr(lam[i]) * abs(Fr(out_[i]))
-        if abs(Fr(h) - hexact) > 16 * (len(v) + 1) * EPS * max(float(hexact), 1e-300):
-            return f'returned h={h!r}, exact {float(hexact)!r}'
-        return None
+        return check_l1(lam, γ, [Fr(a) for a in v], [tol(a, l * γ) for a, l in zip(v, lam)], h, out_)
+    if kind == 'gps':
+        return monitor_gps(op, t, out)
     if kind == 'unc':
         γ = t.flt(); x = t.vec(); g = t.vec()
         h = o.flt(); xh = o.vec(); p = o.vec()
+        if h != 0:
+            return f'UnconstrProblem::eval_prox_grad_step returned h={h!r} ≠ 0 (h ≡ 0)'
         for i in range(len(x)):
             s = Fr(x[i]) - Fr(γ) * Fr(g[i])
-            if abs(Fr(xh[i]) - s) > tol(x[i], γ * g[i]):
+            if not math.isfinite(xh[i]) or abs(Fr(xh[i]) - s) > tol(x[i], γ * g[i]):
                 return f'unconstrained step x̂[{i}]={xh[i]!r}, exact {float(s)!r}'
+            if not math.isfinite(p[i]) or abs(Fr(p[i]) - (Fr(xh[i]) - Fr(x[i]))) > 2 * tol(x[i], xh[i]):
+                return f'unconstrained step p[{i}]={p[i]!r} ≠ x̂ − x = {float(Fr(xh[i]) - Fr(x[i]))!r}'
         return None
+    return None
+
+
+def check_l1(lam, γ, v, es, h, out_):
+    """L1Norm::prox on the point v (exact): minimiser (independent argmin), optimality condition at the
+    returned point, returned h = Σ λ_i |out_i|."""
+    hexact = Fr(0)
+    if len(out_) != len(v):
+        return 'output size mismatch'
+    for i in range(len(v)):
+        if not math.isfinite(out_[i]):
+            return f'soft-threshold[{i}]={out_[i]!r}'
+        s = prox1d_argmin(v[i], Fr(lam[i]), Fr(γ), -INF, INF)
+        if abs(Fr(out_[i]) - s) > es[i]:
+            return f'soft-threshold[{i}]={out_[i]!r} is not the minimiser of λ|u| + (u−v)²/(2γ): exact argmin {float(s)!r}'
+        res = opt_residual(Fr(out_[i]), v[i], Fr(lam[i]), Fr(γ), -INF, INF)
+        if res * Fr(γ) > 2 * Fr(es[i]):
+            return (f'optimality condition violated at out[{i}]={out_[i]!r}: (v − x̂)/γ = '
+                    f'{float((v[i] - Fr(out_[i])) / Fr(γ))!r} ∉ λ∂|x̂| (λ={lam[i]!r}, γ={γ!r}, v={float(v[i])!r})')
+        hexact += Fr(lam[i]) * abs(Fr(out_[i]))
+    if not math.isfinite(h) or abs(Fr(h) - hexact) > 16 * (len(v) + 1) * EPS * max(float(hexact), 1e-300):
+        return f'returned h={h!r}, exact Σ λ_i|out_i| = {float(hexact)!r}'
+    return None
+
+
+def monitor_gps(op, t, out):
+    """The generic prox_step default: out = prox_{γh}(in + γ_fwd·fwd_step), fb_step = out − in ("p equals
+    output minus input"), returned value h(out)."""
+    kind = t.tok()
+    if kind == 'nuc':
+        mode = t.nat(); lam = t.flt(); γ = t.flt(); γf = t.flt(); r = t.nat(); c = t.nat()
+        a = t.vec(); d = t.vec()
+        # the point the prox is taken at, as the real code forms it (one rounding per entry)
+        w = [a[i] + γf * d[i] for i in range(r * c)]
+        if out.startswith('crash') or out in ('exception', 'pipe-failed'):
+            return monitor_nuc(op, T(f'{mode} {f2h(lam)} {f2h(γ)} {r} {c} {vec2p(w)}'), out)
+        main, sep, tail = out.partition(' # ')
+        toks = main.split()
+        # split off fb_step (the last vector of the main part) and hand the rest to the nuclear-norm monitor
+        oo = T(main)
+        tag = oo.tok()
+        if tag == 'S':
+            oo.vec()
+        oo.flt(); outm = oo.vec(); fb = oo.vec()
+        pos = len(toks) - (len(fb) + 1)
+        m = monitor_nuc(op, T(f'{mode} {f2h(lam)} {f2h(γ)} {r} {c} {vec2p(w)}'), ' '.join(toks[:pos]) + sep + tail)
+        if m:
+            return m
+        for i in range(r * c):
+            if abs(Fr(fb[i]) - (Fr(outm[i]) - Fr(a[i]))) > 2 * tol(outm[i], a[i]):
+                return f'generic prox_step: fb_step[{i}] = {fb[i]!r} ≠ out − in = {float(Fr(outm[i]) - Fr(a[i]))!r}'
+        return None
+    if kind in ('l1s', 'cl1s'):
+        lam0 = t.flt(); γ = t.flt(); γf = t.flt(); x = t.vec(); d = t.vec(); lamv = None
+    else:
+        lamv = t.vec(); γ = t.flt(); γf = t.flt(); x = t.vec(); d = t.vec(); lam0 = None
+    n = len(x)
+    vv = [Fr(x[i]) + Fr(γf) * Fr(d[i]) for i in range(n)]
+    if kind in ('l1s', 'l1v'):
+        o = T(out)
+        h = o.flt(); out_ = o.vec(); fb = o.vec()
+        lam = [lam0] * n if kind == 'l1s' else (lamv if lamv else [1.0] * n)
+        es = [tol(x[i], γf * d[i], lam[i] * γ) for i in range(n)]
+        m = check_l1(lam, γ, vv, es, h, out_)
+        if m:
+            return 'generic prox_step (L1Norm): ' + m
+    else:
+        # complex ℓ1: reuse the complex monitor on the forward point as the real code forms it
+        w = [x[i] + γf * d[i] for i in range(n)]
+        main, _, tail = out.partition(' # ')
+        o = T(main)
+        out_ = o.vec(); fb = o.vec()
+        hs = T(tail); h = hs.flt()
+        sub = (f'{f2h(lam0)} {f2h(γ)} {vec2p(w)}' if kind == 'cl1s' else f'{vec2p(lamv)} {f2h(γ)} {vec2p(w)}')
+        m = monitor_cplx(kind, T(sub), f'{vec2p(out_)} {vec2p(out_)} # {f2h(h)} {f2h(h)}')
+        if m:
+            return ('generic prox_step (L1NormComplex): ' + m[0], m[1]) if isinstance(m, tuple) else \
+                'generic prox_step (L1NormComplex): ' + m
+    if len(fb) != n:
+        return 'fb_step size mismatch'
+    for i in range(n):
+        if not math.isfinite(fb[i]) or abs(Fr(fb[i]) - (Fr(out_[i]) - Fr(x[i]))) > 2 * tol(out_[i], x[i]):
+            return f'generic prox_step: fb_step[{i}] = {fb[i]!r} ≠ out − in = {float(Fr(out_[i]) - Fr(x[i]))!r}'
     return None
 
 
@@ -674,8 +906,22 @@ CORPUS = [
     f'pmult 1 {f2h(10.0)} {vec2p([7.0, 4.0, -20.0, 5.0, 30.0, -4.0, 20.0])} '
     f'{vec2p([0.0, -INF, 0.0, -INF, 0.0, -INF, 0.0])} {vec2p([1.0, 1.0, INF, INF, 1.0, 1.0, INF])}',
     f'proj {vec2p([5.0, -7.0, 3.0, 9.0])} {vec2p([-INF, -1.0, -INF, 0.0])} {vec2p([2.0, INF, INF, 4.0])}',
-    f'pstep {f2h(-0.5)} {vec2p([5.0, 0.0, -3.0, 0.5])} {vec2p([1.0, 4.0, 0.0, -20.0])} '
+    f'pstep {f2h(3.0)} {f2h(-0.5)} {vec2p([5.0, 0.0, -3.0, 0.5])} {vec2p([1.0, 4.0, 0.0, -20.0])} '
     f'{vec2p([-INF, -1.0, -INF, -2.0])} {vec2p([2.0, INF, INF, 2.0])}',
+]
+CORPUS += [
+    # the generic prox_step default, γ ≠ 1, γ_fwd ≠ ±γ, for every functor without its own prox_step
+    f'gps l1s {f2h(1.0)} {f2h(0.5)} {f2h(-2.0)} {vec2p([1.0, 2.0, -0.25])} {vec2p([0.5, -1.0, 0.0])}',
+    f'gps l1s {f2h(0.0)} {f2h(0.5)} {f2h(-2.0)} {vec2p([1.0, 2.0])} {vec2p([0.5, -1.0])}',          # λ == 0 branch
+    f'gps l1v {vec2p([1.0, 0.0, 2.0])} {f2h(0.25)} {f2h(3.0)} {vec2p([1.0, 2.0, -4.0])} {vec2p([0.5, -1.0, 1.5])}',
+    f'gps l1v {vec2p([])} {f2h(0.25)} {f2h(3.0)} {vec2p([1.0, 2.0, -4.0])} {vec2p([0.5, -1.0, 1.5])}',  # empty λ → ones
+    f'gps cl1s {f2h(1.0)} {f2h(0.5)} {f2h(-2.0)} {vec2p([1.0, 2.0, 3.0, 0.0])} {vec2p([0.5, -1.0, 0.0, -2.0])}',
+    f'gps cl1v {vec2p([1.0, 0.5])} {f2h(2.0)} {f2h(0.5)} {vec2p([1.0, 2.0, 3.0, 0.0])} {vec2p([4.0, 4.0, 6.0, 8.0])}',
+    f'gps nuc 1 {f2h(1.0)} {f2h(0.5)} {f2h(-2.0)} 2 2 {vec2p([3.0, 0.0, 0.0, 1.0])} {vec2p([0.5, 0.0, 0.0, 0.25])}',
+    f'gps nuc 0 {f2h(0.0)} {f2h(0.5)} {f2h(-2.0)} 2 1 {vec2p([1.0, 2.0])} {vec2p([0.5, -1.0])}',
+    # L1Norm::prox returned value: λ == 0 branch, empty weight vector
+    f'l1s {f2h(0.0)} {f2h(0.5)} {vec2p([1.0, -2.0])}',
+    f'l1v {vec2p([])} {f2h(0.5)} {vec2p([1.0, -2.0, 0.25])}',
 ]
 for _op in CORPUS:
     count_inf(_op)
@@ -689,6 +935,15 @@ def impl_view(h):
 
 def driver_input(op, h):
     """The nuclear-norm model is run on the SVD the real code computed (logged by the harness)."""
+    if op.startswith('gps nuc '):
+        t = op.split()
+        head = t[3:]                   # λ γ γ_fwd rows cols in fwd
+        main, _, tail = h.partition(' # ')
+        if main.startswith('Z '):
+            return f'gpsnucpost {" ".join(head)} 0 0 0'
+        if main.startswith('S ') and tail.startswith('1 '):
+            return f'gpsnucpost {" ".join(head)} {tail[2:]}'
+        return 'echo ' + main
     if not op.startswith('nuc '):
         return op
     t = op.split()
@@ -706,6 +961,13 @@ def extra_stage(rep, broken, exe, tier):
     """Infinite-bound coverage of every bound-taking kernel; compile probe: the shipped
     L1NormComplex::prox must instantiate without the harness shim."""
     rep.cov['infinite_bound_ops_per_kind'] = {k: dict(v) for k, v in sorted(INF_COV.items())}
+    rep.cov['exemptions_and_observations_by_reason'] = dict(sorted(COUNT.items()))
+    rep.cov['op_kinds_monitored'] = dict(sorted(KINDS.items()))
+    need = ['pgs', 'inact', 'pmult', 'proj', 'pstep', 'l1s', 'l1v', 'unc', 'cl1s', 'cl1v', 'nuc', 'gps l1s',
+            'gps l1v', 'gps cl1s', 'gps cl1v', 'gps nuc', 'gps with γ ≠ 1 and |γ_fwd| ≠ γ']
+    lack = [k for k in need if not KINDS.get(k)]
+    if exe and lack:
+        broken.append('required coverage not reached (op kinds never monitored in this run): ' + ', '.join(lack))
     missing = [f'{k}:{side}' for k in BOUND_KINDS for side in ('-inf', '+inf')
                if not INF_COV.get(k, {}).get(side)]
     if missing:
